@@ -25,7 +25,7 @@ from sim.runner import Outcome
 
 ID = "C12"
 LEVEL = "exploration"
-RUN_WALL_S = 30
+RUN_WALL_S = 90
 SYS_MAX_LEN = 4
 SYSTEMATIC_STRIDE = 2          # even case indices 0..139806 are the systematic sweep, odd ones (and all later ones) are drawn
 TIERS = {
